@@ -87,7 +87,7 @@ def floors(tier):
             'peek_token_does_not_move': 100000, 'next_token_advances': 100000,
             'rewind_checked': 100000, 'end_of_stream_reached': 20000,
             'char_level_calls_checked': 100000, 'resume_from_position_checked': 30000,
-            'token_list_reader_replays': 20000, 'rewind_without_pre_space_checked': 50000, 'histkeys:config': len(CONFIGS), 'hist:mode:tolerant': 10000, 'hist:mode:strict': 10000}
+            'token_list_reader_replays': 20000, 'end_of_stream_after_none_peek': 20000, 'rewind_without_pre_space_checked': 50000, 'histkeys:config': len(CONFIGS), 'hist:mode:tolerant': 10000, 'hist:mode:strict': 10000}
 
 
 def setup(rec):
@@ -113,6 +113,7 @@ def read_all(s, with_ctx, kw, tol, rec):
     nreads = 0
     kinds = set()
     toks = []
+    reached_eos = False
     while True:
         p0 = tr.cur_pos()
         try:
@@ -126,6 +127,7 @@ def read_all(s, with_ctx, kw, tol, rec):
             rec.monitor('end_of_stream_reached')
             if out + fs != s:
                 return 'lossy: tokens+final_space reproduce %r instead of the input' % (out + fs,)
+            reached_eos = True
             break
         except LatexWalkerTokenParseError as e:
             if tr.cur_pos() != p0:
@@ -170,10 +172,10 @@ def read_all(s, with_ctx, kw, tol, rec):
             return 're-read left the reader at %r instead of %r' % (tr.cur_pos(), p1)
     if nreads >= 2 and len(kinds) >= 2:
         rec.nontrivial((s, with_ctx, sorted(kw.items(), key=str), tol))
-    return second_pass(s, ps, tol, toks, rec)
+    return second_pass(s, ps, tol, toks, rec, reached_eos=reached_eos)
 
 
-def second_pass(s, ps, tol, toks, rec):
+def second_pass(s, ps, tol, toks, rec, reached_eos=False):
     """The other reader entry points on the same input: peek_token_or_none / move_past_token, the character-level
     calls, resuming from a position, and the token-list reader fed with the tokens just read."""
     tr = LatexTokenReader(s, tolerant_parsing=tol)
@@ -239,8 +241,23 @@ def second_pass(s, ps, tol, toks, rec):
         tr.move_past_token(pk)
         if tr.cur_pos() != tok.pos_end:
             return 'move_past_token() left the reader at %r, token ends at %r (%r)' % (tr.cur_pos(), tok.pos_end, tok)
-    if tol and tr.peek_token_or_none(ps) is not None:
-        return 'peek_token_or_none() after the last token of the first pass returns %r' % (tr.peek_token_or_none(ps),)
+    if reached_eos:
+        # only whitespace (or nothing) is left: the None-returning peek does not move either, and the end-of-stream
+        # report that follows still carries all of the trailing whitespace
+        p_end = tr.cur_pos()
+        r = tr.peek_token_or_none(ps)
+        if r is not None:
+            return 'peek_token_or_none() after the last token of the first pass returns %r' % (r,)
+        if tr.cur_pos() != p_end:
+            return 'peek_token_or_none() at end of stream moved the reader %r -> %r' % (p_end, tr.cur_pos())
+        try:
+            tr.next_token(ps)
+            return 'next_token() after the last token does not raise LatexWalkerEndOfStream'
+        except LatexWalkerEndOfStream as e:
+            rec.monitor('end_of_stream_after_none_peek')
+            if getattr(e, 'final_space', None) != s[p_end:]:
+                return 'end of stream after peek_token_or_none() reports final_space %r, the input ends with %r' % (
+                    getattr(e, 'final_space', None), s[p_end:])
     # the list reader replays the tokens
     if toks:
         lr = LatexTokenListTokenReader(list(toks))
